@@ -591,7 +591,8 @@ int read_msf(struct in_buffer* b,struct msa** m)
                                         seq_ptr->name[i] = 0;
                                         break;
                                 }
-                                if(isspace((int)p[i])){
+                                /* the name ends at a blank or at the end of the line */
+                                if(p[i] == 0 || isspace((int)p[i])){
                                         seq_ptr->name[i] = 0;
                                         break;
                                 }
